@@ -100,7 +100,7 @@ def gen(rng, n_tus=None, n_platforms=None, outside=False, missing=0.0, toggles=T
     tus = []
     for t in range(n_tus):
         d = "src/sub" if ("src/sub" in dirs and rng.random() < 0.35) else "src"
-        rel = f"{d}/t{t}.c"
+        rel = f"{d}/t{t}" + rng.choice([".c", ".c", ".cpp", ".cc", ".cu"])
         body = [["code"]]
         for _ in range(rng.randint(1, 4 if not big else 10)):
             x = rng.random()
@@ -124,6 +124,12 @@ def gen(rng, n_tus=None, n_platforms=None, outside=False, missing=0.0, toggles=T
             form = rng.choice(['"%s"', "<%s>"])
             body += [["define", "IMPL", form % a], ["include", rng.choice("qa"), "dispatch.h"], ["undef", "IMPL"],
                      ["define", "IMPL", form % b_], ["include", "q", "dispatch.h"], ["undef", "IMPL"]]
+        if rng.random() < 0.15:
+            # a header that includes itself a bounded number of times, each pass selected by macros
+            files["inc/rep.h"] = [["code"], ["chain", [["ifndef", "REP1", [["define", "REP1", None], ["code"], ["include", "q", "rep.h"], ["code"]]],
+                                                       ["elif", "!defined(REP2)", [["define", "REP2", None], ["code"], ["include", "q", "rep.h"]]],
+                                                       ["else", None, [["code"]]]]], ["code"]]
+            body += [["include", rng.choice("qa"), "rep.h"], ["chain", [["ifdef", "REP2", [["code"]]], ["else", None, [["code"]]]]]]
         body.extend(detectors(rng.randint(1, 3)))
         if forced:
             body.append(["chain", [["ifdef", "FROM_PRE", [["code"]]], ["else", None, [["code"]]]]])
